@@ -35,6 +35,12 @@ enum Inj {
     Readdress,
     /// the genuine record with its epoch field rewritten
     Reepoch { epoch: u16 },
+    /// a genuine application record the VICTIM itself sent, played back to it from the peer's
+    /// address (it is sealed under the victim's own write key, not the key the victim reads with)
+    Reflect,
+    /// the genuine handshake datagram that is about to be delivered to the victim (emitted, still in
+    /// flight) with one bit flipped, injected just before the unmodified original
+    FlipPending { bit: usize, label: String },
 }
 
 impl Inj {
@@ -45,7 +51,21 @@ impl Inj {
             Inj::Truncate { .. } => "truncated-genuine".into(),
             Inj::Readdress => "genuine-from-stranger".into(),
             Inj::Reepoch { epoch } => format!("genuine-reepoch({epoch})"),
+            Inj::Reflect => "own-record-reflected".into(),
+            Inj::FlipPending { bit, label } => format!("bitflip-of-pending[{label}](byte-class={})", pending_region(*bit / 8)),
         }
+    }
+}
+
+/// Offset classes inside a pending handshake datagram (its first record's header, then the rest).
+fn pending_region(byte: usize) -> &'static str {
+    match byte {
+        0 => "type",
+        1..=2 => "version",
+        3..=4 => "epoch",
+        5..=10 => "seq",
+        11..=12 => "length",
+        _ => "body-or-later-record",
     }
 }
 
@@ -94,6 +114,9 @@ struct Obs {
     hist: [Vec<String>; 2],
     handshake_datagrams: usize,
     skipped_no_keys: bool,
+    /// per handshake datagram (in delivery order): destination side, length, label, and whether
+    /// (A, B) held keys when it was about to be delivered
+    hs_dgrams: Vec<(u8, usize, String, [bool; 2])>,
 }
 
 fn sample(a: &End, b: &End, hist: &mut [Vec<String>; 2]) {
@@ -111,7 +134,7 @@ fn now_ms(start: tokio::time::Instant) -> u64 {
     (tokio::time::Instant::now() - start).as_millis() as u64
 }
 
-fn build_injection(inj: &Inj, genuine: Option<&Dgram>, victim: Side) -> Option<Dgram> {
+fn build_injection(inj: &Inj, genuine: Option<&Dgram>, own: Option<&Dgram>, pending: Option<&Dgram>, victim: Side) -> Option<Dgram> {
     let to = if victim == Side::A { sim::addr(sim::ADDR_A) } else { sim::addr(sim::ADDR_B) };
     let peer = if victim == Side::A { sim::addr(sim::ADDR_B) } else { sim::addr(sim::ADDR_A) };
     match inj {
@@ -143,6 +166,19 @@ fn build_injection(inj: &Inj, genuine: Option<&Dgram>, victim: Side) -> Option<D
             let g = genuine?;
             let mut d = g.data.clone();
             d[3..5].copy_from_slice(&epoch.to_be_bytes());
+            Some(Dgram { data: d, from: peer, to })
+        }
+        Inj::Reflect => {
+            let g = own?;
+            Some(Dgram { data: g.data.clone(), from: peer, to })
+        }
+        Inj::FlipPending { bit, .. } => {
+            let g = pending?;
+            if g.dest_side() != Some(victim) || *bit / 8 >= g.data.len() {
+                return None;
+            }
+            let mut d = g.data.clone();
+            d[*bit / 8] ^= 1 << (*bit % 8);
             Some(Dgram { data: d, from: peer, to })
         }
     }
@@ -185,12 +221,17 @@ fn run(sc: Option<&Scenario>, seed: u64) -> Option<Obs> {
             let mut cap = vec![];
             let mut obs = Obs::default();
             let mut genuine_to: [Option<Dgram>; 2] = [None, None];
-            let inject = |stage: Stage, genuine_to: &[Option<Dgram>; 2]| -> Vec<Dgram> {
+            let inject_p = |stage: Stage, genuine_to: &[Option<Dgram>; 2], pending: Option<&Dgram>| -> Vec<Dgram> {
                 match &sc {
-                    Some(s) if s.stage == stage => s.inj.iter().filter_map(|i| build_injection(i, genuine_to[s.victim as usize].as_ref(), s.victim)).collect(),
+                    Some(s) if s.stage == stage => s
+                        .inj
+                        .iter()
+                        .filter_map(|i| build_injection(i, genuine_to[s.victim as usize].as_ref(), genuine_to[1 - s.victim as usize].as_ref(), pending, s.victim))
+                        .collect(),
                     _ => vec![],
                 }
             };
+            let inject = |stage: Stage, genuine_to: &[Option<Dgram>; 2]| -> Vec<Dgram> { inject_p(stage, genuine_to, None) };
             // handshake: deliver datagrams one by one, reaching quiescence between them, so that
             // every boundary is an exact, reproducible state of both endpoints
             let mut hist: [Vec<String>; 2] = Default::default();
@@ -221,7 +262,7 @@ fn run(sc: Option<&Scenario>, seed: u64) -> Option<Obs> {
                             }
                             continue;
                         }
-                        let injs = inject(st, &genuine_to);
+                        let injs = inject_p(st, &genuine_to, next.as_ref());
                         if !injs.is_empty() {
                             for d in injs {
                                 obs.injected += 1;
@@ -234,6 +275,13 @@ fn run(sc: Option<&Scenario>, seed: u64) -> Option<Obs> {
                 }
                 match next {
                     Some(d) => {
+                        // lengths of datagrams delivered to an endpoint without keys are not recorded:
+                        // they contain DER signatures / certificates whose size varies with the
+                        // (unowned) DTLS randomness and would break the replay-equality check
+                        let dest = d.dest_side().map_or(9, |x| x as u8);
+                        let keys = [client_ccs_emitted, cke_delivered];
+                        let len = if dest <= 1 && keys[dest as usize] { d.data.len() } else { 0 };
+                        obs.hs_dgrams.push((dest, len, sim::label(&d, None), keys));
                         cap.push(d.clone());
                         if d.dest_side() == Some(Side::B) && wire::dtls_records(&d.data).iter().any(|r| r.ctype == 22 && r.epoch == 0 && wire::handshake_msgs(&r.body).iter().any(|h| h.msg_type == 16)) {
                             cke_delivered = true;
@@ -383,6 +431,7 @@ fn catalog(stage: Stage, genuine_len: usize, thorough: bool) -> Vec<Inj> {
             v.push(Inj::Truncate { len });
         }
         v.push(Inj::Readdress);
+        v.push(Inj::Reflect);
         for e in [0u16, 2, 0xffff] {
             v.push(Inj::Reepoch { epoch: e });
         }
@@ -606,6 +655,19 @@ fn main() {
             }
         }
     }
+    // every single-bit flip of every handshake datagram that is delivered to an endpoint holding
+    // keys, injected just before the original
+    let mut pending_flips = 0u64;
+    for (k, (dest, len, label, keys)) in base_open.hs_dgrams.iter().enumerate() {
+        if *dest > 1 || !keys[*dest as usize] {
+            continue;
+        }
+        let victim = if *dest == 0 { Side::A } else { Side::B };
+        for bit in 0..len * 8 {
+            scenarios.push(Scenario { stage: Stage::Boundary(k as u8), victim, inj: vec![Inj::FlipPending { bit, label: label.clone() }] });
+            pending_flips += 1;
+        }
+    }
     let singles = scenarios.len();
     if thorough {
         // pairs: a crafted epoch-0 / alert record followed by each genuine-derived forgery class representative
@@ -619,7 +681,13 @@ fn main() {
             }
             // every ordered pair of crafted records (peer address) once both sides are connected
             // and in the middle of the handshake with keys present
-            for stage in [Stage::KeysMidHandshake, Stage::BothConnected] {
+            let mut pair_stages = vec![Stage::BothConnected];
+            for (k, (_, _, _, keys)) in base_open.hs_dgrams.iter().enumerate() {
+                if keys[victim as usize] {
+                    pair_stages.push(Stage::Boundary(k as u8));
+                }
+            }
+            for stage in pair_stages {
                 for f in &firsts {
                     for s in &firsts {
                         scenarios.push(Scenario { stage, victim, inj: vec![f.clone(), s.clone()] });
@@ -674,7 +742,7 @@ fn main() {
     // outbound: every start order of 1..3 senders x sizes
     let sizes_dom: Vec<usize> = vec![0, 1, 1200, 1201, 2400, 3000];
     let mut out_cases: Vec<(Vec<usize>, Vec<usize>)> = vec![];
-    for n in 1..=3usize {
+    for n in 1..=(if thorough { 4usize } else { 3 }) {
         let mut idx = vec![0usize; n];
         loop {
             let sizes: Vec<usize> = idx.iter().map(|i| sizes_dom[*i]).collect();
@@ -718,6 +786,7 @@ fn main() {
     rep.set("injection_histories", scenarios.len() as u64);
     rep.set("single_injection_histories", singles as u64);
     rep.set("histories_with_an_effect", n_effect);
+    rep.set("pending_handshake_datagram_bitflip_histories", pending_flips);
     rep.set("handshake_datagram_boundaries", base_open.handshake_datagrams as u64);
     rep.set("boundary_x_victim_points_with_keys_held", boundary_applied.len() as u64);
     rep.set("boundary_histories_skipped_victim_without_keys", n_skipped);
@@ -728,7 +797,7 @@ fn main() {
     rep.set("outbound_records_checked", out_records as u64);
     rep.set("genuine_record_len", glen as u64);
     rep.set("exhaustive", true);
-    rep.set("rule", "inbound: every (stage in {every quiescent datagram boundary of the handshake at which the victim holds keys, both connected, after traffic, after close_notify}) x (victim A|B) x (record of the catalog: content types {20,21,22,23,24,255} x epochs {0,1,2} x 4 payloads x 2 source addresses; every single-bit flip, every truncation, re-addressing and epoch rewrite of a genuine application record) injected once (thorough: also pairs); each history executed on two real DtlsTransports and compared with the injection-free run: only genuine payloads delivered, same final states AND same state history at every quiescent point, genuine traffic still delivered. outbound: every start order of 1..3 concurrent send() tasks x payload sizes {0,1,1200,1201,2400,3000}; every emitted datagram must be exactly one type-23 record with epoch>=1, <=1237 bytes, authenticating under the session keys, unique (epoch,seq), and the plaintexts must reassemble the submitted payloads. distinct_nontrivial = distinct (states, delivery counts, verdict count) outcomes");
+    rep.set("rule", "inbound: every (stage in {every quiescent datagram boundary of the handshake at which the victim holds keys, both connected, after traffic, after close_notify}) x (victim A|B) x (record of the catalog: content types {20,21,22,23,24,255} x epochs {0,1,2} x 4 payloads x 2 source addresses; every single-bit flip, every truncation, re-addressing, epoch rewrite of a genuine application record, the victim's own record reflected; every single-bit flip of each handshake datagram about to be delivered to a key-holding endpoint) injected once (thorough: also pairs); each history executed on two real DtlsTransports and compared with the injection-free run: only genuine payloads delivered, same final states AND same state history at every quiescent point, genuine traffic still delivered. outbound: every start order of 1..3 (thorough: 1..4) concurrent send() tasks x payload sizes {0,1,1200,1201,2400,3000}; every emitted datagram must be exactly one type-23 record with epoch>=1, <=1237 bytes, authenticating under the session keys, unique (epoch,seq), and the plaintexts must reassemble the submitted payloads. distinct_nontrivial = distinct (states, delivery counts, verdict count) outcomes");
     rep.assume("concurrent send() tasks run on the single-threaded deterministic runtime: interleavings are at await-point granularity (start orders); pre-emption inside send_record between OS threads is not explored (sequence allocation is a single fetch_add)");
     rep.assume("a genuine record replayed unmodified (also from another address) may be delivered again: the statement does not promise replay protection");
     if outcomes.len() < 2 && rep.violation_count() == 0 {
@@ -744,6 +813,8 @@ fn scenario_to_json(sc: &Scenario) -> serde_json::Value {
         Inj::Truncate { len } => json!({"k": "trunc", "len": len}),
         Inj::Readdress => json!({"k": "readdress"}),
         Inj::Reepoch { epoch } => json!({"k": "reepoch", "epoch": epoch}),
+        Inj::Reflect => json!({"k": "reflect"}),
+        Inj::FlipPending { bit, label } => json!({"k": "flip-pending", "bit": bit, "label": label}),
     }).collect::<Vec<_>>()})
 }
 
@@ -759,6 +830,8 @@ fn scenario_from_json(r: &serde_json::Value) -> Scenario {
         "flip" => Inj::FlipBit { bit: i["bit"].as_u64().unwrap() as usize },
         "trunc" => Inj::Truncate { len: i["len"].as_u64().unwrap() as usize },
         "reepoch" => Inj::Reepoch { epoch: i["epoch"].as_u64().unwrap() as u16 },
+        "reflect" => Inj::Reflect,
+        "flip-pending" => Inj::FlipPending { bit: i["bit"].as_u64().unwrap() as usize, label: i["label"].as_str().unwrap_or("").to_string() },
         _ => Inj::Readdress,
     }).collect();
     Scenario { stage, victim, inj }
